@@ -35,14 +35,25 @@ Theorem C16_edges_ok : forall st, In st sites -> acq_site_ok st = true.
 Proof. exact edges_ok. Qed.
 Print Assumptions C16_edges_ok.
 
-(** each such symbolic request is a request permitted by discipline D for every valuation of the
-    symbolic nodes that respects the tree relations the names express *)
-Theorem C16_edges_sound : forall st, In st sites -> forall l w, s_kind st = KAcq l w ->
-  forall rho, (forall a b, below a b = true -> length (rho a) < length (rho b)) ->
-              (forall a b, In (a, b) (s_facts st) -> rho a <> rho b) ->
-  acq_ok clock clock_eqb crank RenameMu cchildish (vh rho (s_held st)) (vl rho l).
-Proof. exact site_requests_sound. Qed.
+(** the plan of every site (ordered Lock/Unlock steps emitted by the generator; held sets recomputed in
+    Coq and equal to the emitted ones) gives, for every valuation of the symbolic names that respects the
+    tree relations they express, a thread fragment that obeys discipline D at every acquisition *)
+Theorem C16_plans_match : forall st, In st sites -> paths_match st = true.
+Proof. exact plans_match. Qed.
+Theorem C16_edges_sound : forall st, In st sites -> carries st = true ->
+  forall rho, respects rho (full_path st) ->
+  oplan clock clock_eqb ccall crank RenameMu cchildish [] (site_thread rho st).
+Proof. exact site_thread_oplan. Qed.
 Print Assumptions C16_edges_sound.
+
+(** end to end: any number of threads, each running the fragment of some site under its own valuation *)
+Theorem C16_no_deadlock_sites : forall (ths : list (site * (snode -> node))),
+  (forall st rho, In (st, rho) ths -> In st sites /\ carries st = true /\ respects rho (full_path st)) ->
+  forall s, reachable clock clock_eqb ccall ccall_eqb (map (fun x => site_thread (snd x) (fst x)) ths) s ->
+  (exists i t, nth_error s i = Some t /\ rest t <> []) ->
+  ~ (forall i t, nth_error s i = Some t -> rest t <> [] -> blocked clock ccall s i).
+Proof. exact sites_no_deadlock. Qed.
+Print Assumptions C16_no_deadlock_sites.
 
 (** no backend call (which may block as long as the backend likes) is made while holding a
     connection-wide or leaf mutex; waits for other goroutines happen with nothing held *)
@@ -99,3 +110,7 @@ Proof.
   - vm_compute. intros l' w' [H|[]]. inversion H; subst. left. auto.
   - intros l' w' _ _. exists false. left. reflexivity.
 Qed.
+
+(** the valuation hypothesis [respects] is satisfiable for every site of the table *)
+Theorem C16_valuations_exist : forall st, In st sites -> respects rho_ex (full_path st).
+Proof. exact canonical_respects. Qed.
